@@ -57,8 +57,20 @@ REG.contract(T + "Term.__init__", params={"components": "list[any]"}, tags=["C02
 REG.contract(T + "Term.__eq__", params={"other": T + "Term"}, returns="bool", tags=["C02"],
              ensures=["result == (self.components == other.components)"])
 
+import copy as _copy
+
+
+def _m_deepcopy(I, a, kw, node):
+    """copy.deepcopy on a component: a value that == its argument (components are values compared with ==; the copy is modelled as
+    the same value, so that it is a *different object* - what the fix b987558 relies on - is outside this model)"""
+    return a[0]
+
+
+REG.external_objects[_copy.deepcopy] = _m_deepcopy
 FUNCTIONS += [T + "Term.__init__", T + "Term.__eq__"]
-ASSUMPTIONS += ["components (Variable / Call objects) are opaque values compared with ==; their __eq__/__hash__ are not verified here"]
+ASSUMPTIONS += ["copy.deepcopy(component) == component (Variable.__eq__ / Call.__eq__ compare name, level / the lazy call; verified in "
+                "variable_c); object identity of the copy is not modelled",
+                "components (Variable / Call objects) are opaque values compared with ==; their __eq__/__hash__ are not verified here"]
 
 # ---- Response (C15): a single term, whose component is marked as the response ------------------
 REG.opaque_attr_types = dict(getattr(REG, "opaque_attr_types", {}), is_response="bool")
